@@ -110,7 +110,23 @@ MonitorStep ==
                                     \/ (C \in DOMAIN rd2 /\ rd2[C].val = MaxU /\ C \notin DOMAIN w2),
               <<C, IF Has("err") THEN Line.err ELSE "">>)
 
-IsStep == Line.ev \notin {"Reset", "End", "HarnessError"}
+IsStep == Line.ev \notin {"Reset", "End", "HarnessError", "Stress"}
+
+\* a free-running run (no schedule imposed, callers of one core racing): judged on the numbers handed out
+RECURSIVE FlatNums(_)
+FlatNums(ns) == IF Len(ns) = 0 THEN <<>> ELSE ns[1] \o FlatNums(Tail(ns))
+TStress ==
+  /\ l <= Len(Trace) /\ Line.ev = "Stress"
+  /\ LET all == FlatNums(Line.nums)
+         set == {all[i] : i \in 1..Len(all)}
+         lo == IF Line.before.present THEN Line.before.val ELSE 0
+     IN nviol' = nviol
+          + Soft("Unique", Cardinality(set) = Len(all), <<"stress", Len(all), Cardinality(set)>>)
+          + Soft("Increasing", \A c \in 1..Len(Line.nums) : \A i \in 1..(Len(Line.nums[c]) - 1) : Line.nums[c][i] < Line.nums[c][i + 1],
+                 <<"stress: a caller's own numbers">>)
+          \* every number handed out lies above the counter at the start and was written: not above the counter at the end
+          + Soft("NoNumberWithoutCas", \A n \in set : n > lo /\ n <= Line.after.val, <<"stress", lo, Line.after.val>>)
+  /\ l' = l + 1 /\ UNCHANGED <<vars, mode, scn, mnums, mfloor, mrd, mw, mver, mflt>>
 
 TStepOk ==
   /\ l <= Len(Trace) /\ IsStep /\ mode = "ok"
@@ -154,7 +170,7 @@ TraceInit ==
   /\ l = 1 /\ mode = "lost" /\ scn = -1
   /\ mnums = {} /\ mfloor = <<>> /\ mrd = <<>> /\ mw = <<>> /\ mver = 0 /\ mflt = {} /\ nviol = 0
 
-TraceNext == TStepOk \/ TStepDrift \/ TStepLost \/ TReset \/ TEnd
+TraceNext == TStepOk \/ TStepDrift \/ TStepLost \/ TReset \/ TEnd \/ TStress
 
 TraceSpec == TraceInit /\ [][TraceNext]_allvars
 
